@@ -21,6 +21,7 @@
    iterator), C20_e2e_enabled (index enabled: every accepted option list; io.EOF is then proved),
    C20_e2e_info.  Not covered: reads that end with an error (none on writer-produced files with the
    index enabled). *)
+From Mcap Require ConstsTie LayoutTie. (* regenerated ties to /repo's source that this property's model relies on *)
 From Coq Require Import List NArith ZArith Bool Permutation Sorted.
 From Coq.Strings Require Import Byte.
 From Mcap Require Import Bytes GoSem Crc32 Records RecordsFacts Writer WriterFactsC Lexer LexSpec LexerFactsB
